@@ -22,14 +22,14 @@ HARNESSES = [
     dict(name="pipeline", pkg="pkg/object/pipeline", files=["harness/pipeline/zz_verif_c11_test.go"],
          run="TestVerifC11Pipeline", groups=["rlf", "inh", "pipe"], timeout=600, share=0.5, extra_overlay=_HOOKS),
     dict(name="tc", pkg="pkg/object/trafficcontroller", files=["harness/trafficcontroller/zz_verif_c11_test.go"],
-         run="TestVerifC11TC", groups=["tc"], timeout=300, share=0.2),
-    dict(name="mux", pkg="pkg/object/httpserver", files=["harness/httpserver/zz_verif_c11_test.go"],
+         run="TestVerifC11TC", groups=["tc", "tcreal"], timeout=300, share=0.2),
+    dict(name="mux", pkg="pkg/object/httpserver", files=["harness/httpserver/zz_verif_c11_test.go", "harness/httpserver/zz_verif_c11_cert_test.go"],
          run="TestVerifC11Mux", groups=["sched", "conc", "restart"], timeout=900, share=0.3, race=True),
 ]
 GROUPS = {"rlf": "(check_rlf pinned)", "inh": "(check_inh pinned)", "pipe": "(check_pipe pinned)",
-          "tc": "(check_tc pinned)", "sched": "(check_sched pinned)", "conc": "(check_conc pinned)", "restart": "(check_restart pinned)"}
+          "tc": "(check_tc pinned)", "sched": "(check_sched pinned)", "conc": "(check_conc pinned)", "restart": "(check_restart pinned)", "tcreal": "(check_tcreal pinned)"}
 EXPLAIN = {"rlf": "explain_rlf pinned", "inh": "explain_inh", "pipe": "explain_pipe pinned",
-           "tc": "explain_tc", "sched": "explain_sched", "conc": "explain_conc", "restart": "explain_restart"}
+           "tc": "explain_tc", "sched": "explain_sched", "conc": "explain_conc", "restart": "explain_restart", "tcreal": "explain_tcreal"}
 CASES = {"quick": 900, "thorough": 6000}
 RULE = ("cases: rlf = RateLimiter filter Init/Inherit/Handle histories incl. requests on superseded generations; "
         "inh = the same for 13 further filter kinds with a never-inherited twin; pipe = Pipeline.Init/Inherit/Handle with "
@@ -38,7 +38,10 @@ RULE = ("cases: rlf = RateLimiter filter Init/Inherit/Handle histories incl. req
         "conc = concurrent clients vs reloads (both incl. generation pairs with identical rules, cacheSize>0, server-/path-level "
         "ipFilters, a warm cache and a second client identity); tc ops also record the view from INSIDE every lifecycle "
         "callback; restart = runtime.needRestartServer/reload over spec pairs (hot-only vs listener-relevant changes), one in "
-        "four with a real keep-alive connection on a loopback port held across the reload. non-trivial = case ran (spec accepted); class bits: rlf +1 inherit +2 limited "
+        "eight with a real keep-alive connection (http or https with a fixed self-signed key pair) on a loopback port held "
+        "across the reload; plus: loaded spec still Equals a fresh parse of its YAML, and probe requests after the update "
+        "are answered like a runtime that only ever had the new spec; tcreal = ApplyPipelineForSpec with real Pipeline "
+        "objects (explicit / generated flow, lifecycle-counting filters), fresh Spec parsed from YAML per call. non-trivial = case ran (spec accepted); class bits: rlf +1 inherit +2 limited "
         "+4 superseded generation handled a matching request; inh +1 superseded handled +2 closed handled +4*kind; pipe +1 "
         "superseded handled +2 closes +4 inherits; tc +1 no-op apply +2 inherit +4 close; sched +1 served by a superseded "
         "generation +2 reload inside the request +4 status 200; conc +1 two generations' answers seen during reloads; "
@@ -258,8 +261,8 @@ def _enc_conc(i, o):
 
 def _rtspec(s):
     return Rec(rs_listen=Rec(rl_port=Z(1 if s["portAlt"] else 0), rl_keepalive=B(s["keepAlive"]), rl_katimeout=S(s["kaTimeout"]),
-                             rl_maxbody=Z(s["maxBody"]), rl_globalfilter=S(s["globalFilter"])),
-               rs_hot=Rec(rh_rules=S(s["rulesTag"] + ("+pathfilter" if s["pathBlock"] else "")),
+                             rl_maxbody=Z(s["maxBody"]), rl_globalfilter=S(s["globalFilter"]), rl_https=B(s.get("https", False))),
+               rs_hot=Rec(rh_rules=S(s["rulesTag"] + ("+hdr" if s.get("headerRoute") else "") + ("+pathfilter" if s["pathBlock"] else "") + ("+rulefilter" if s.get("ruleBlock") else "")),
                           rh_ipfilter=L([S(x) for x in s.get("block") or []]), rh_xff=B(s["xff"]), rh_cache=Z(s["cache"]),
                           rh_maxconn=Z(s["maxConn"])))
 
@@ -268,7 +271,20 @@ def _enc_restart(i, o):
     live = {"": 0, "reused": 1, "newconn": 2, "failed": 3}.get(o.get("live", ""), None)
     bad = bool(o.get("bad")) or live is None          # "skipped": the loopback listener could not be used
     return Rec(rc_old=_rtspec(i["old"]), rc_new=_rtspec(i["new"]), rc_need=B(o.get("need", False)), rc_delta=Z(o.get("startDelta", 0)),
-               rc_live=Z(live or 0), rc_rbad=B(bad))
+               rc_live=Z(live or 0), rc_equal_after_load=B(o.get("equalAfterLoad", False)),
+               rc_after=L([_resp(t) for t in o.get("after") or []]), rc_fresh=L([_resp(t) for t in o.get("fresh") or []]),
+               rc_rbad=B(bad))
+
+
+def _enc_tcreal(i, o):
+    steps = o.get("steps") or []
+    bad = bool(o.get("bad")) or len(steps) != len(i["ops"] or [])
+    canon = {}
+    for k, sp in enumerate(i["specs"] or []):
+        canon.setdefault((sp["flow"], sp["filters"], sp["tag"]), k)      # equal content = equal YAML
+    ops = [T(S(op["name"]), Z(canon[(lambda sp: (sp["flow"], sp["filters"], sp["tag"]))(i["specs"][op["spec"]])])) for op in i["ops"] or []]
+    obs = [T(B(st["err"] or st["panic"]), Z(st["ret"]), Z(st["events"])) for st in steps]
+    return Rec(trc_ops=L(ops), trc_obs=L(obs), trc_bad=B(bad))
 
 
 def encode(c):
@@ -287,6 +303,8 @@ def encode(c):
         return _enc_conc(i, o)
     if g == "restart":
         return _enc_restart(i, o)
+    if g == "tcreal":
+        return _enc_tcreal(i, o)
     raise ValueError(g)
 
 
@@ -298,7 +316,7 @@ def distribution(cases):
         if g == "inh":
             k = c["in"]["kind"]
             d["inh_kinds"][k] = d["inh_kinds"].get(k, 0) + 1
-        if g in ("rlf", "inh", "pipe", "tc"):
+        if g in ("rlf", "inh", "pipe", "tc", "tcreal"):
             n = len(c["in"].get("ops") or [])
             b = "%d-%d" % (n // 10 * 10, n // 10 * 10 + 9)
             d["ops_hist"][b] = d["ops_hist"].get(b, 0) + 1
